@@ -1,7 +1,7 @@
 """C05 - scalars accept exactly the representable values, exactly, and say why not."""
 from .. import common as C
 from .. import engine as E
-from .. import types as T
+from .. import tys as T
 from .. import catalogue as K
 
 THEOREMS = ["c05_int_exact", "c05_in_domain", "c05_unit", "c05_bool", "c05_string", "c05_char"]
